@@ -76,13 +76,15 @@ func (d *vrDriver) Discard() error {
 func (d *vrDriver) Close() error { d.trace = append(d.trace, "DriverClose"); return nil }
 
 type vrSource struct {
-	xmlErr bool
-	empty  bool
+	xmlErr  bool
+	empty   bool
+	xmlArgs [][4]bool // the arguments of every ToXML call
 }
 
 func (s *vrSource) ToJson(bool) (any, error)     { return nil, nil }
 func (s *vrSource) ToJsonIETF(bool) (any, error) { return nil, nil }
-func (s *vrSource) ToXML(bool, bool, bool, bool) (*etree.Document, error) {
+func (s *vrSource) ToXML(onlyNewOrUpdated, honorNamespace, operationWithNamespace, useOperationRemove bool) (*etree.Document, error) {
+	s.xmlArgs = append(s.xmlArgs, [4]bool{onlyNewOrUpdated, honorNamespace, operationWithNamespace, useOperationRemove})
 	if s.xmlErr {
 		return nil, errors.New("xml rendering failed")
 	}
@@ -169,13 +171,15 @@ func TestVerifReplayNcSet(t *testing.T) {
 		for _, cancelAt := range []string{"", "edit", "commit"} {
 			for _, xmlErr := range []bool{false, true} {
 				for _, empty := range []bool{false, true} {
-					for _, fe := range faults {
-						for _, fc := range faults {
-							for _, fd := range faults {
+					for fi, fe := range faults {
+						for fci, fc := range faults {
+							for fdi, fd := range faults {
 								ctx, cancel := context.WithCancel(context.Background())
 								d := &vrDriver{edit: fe, commit: fc, discard: fd, cancelAt: cancelAt, cancel: cancel}
 								src := &vrSource{xmlErr: xmlErr, empty: empty}
-								nt := &ncTarget{name: "replay", m: new(sync.Mutex), driver: d, sbiConfig: &config.SBI{NetconfOptions: &config.SBINetconfOptions{CommitDatastore: ds}}}
+								// the rendering options of the target: every combination is met (they vary with the fault indices)
+								includeNS, opNS, useRemove := fi%2 == 1, fci%2 == 1, fdi%2 == 1
+								nt := &ncTarget{name: "replay", m: new(sync.Mutex), driver: d, sbiConfig: &config.SBI{NetconfOptions: &config.SBINetconfOptions{CommitDatastore: ds, IncludeNS: includeNS, OperationWithNamespace: opNS, UseOperationRemove: useRemove}}}
 								fns := []string{"(*datastore/target.ncTarget).Set"}
 								if in, ok := inner[ds]; ok {
 									fns = append(fns, in)
@@ -208,6 +212,10 @@ func TestVerifReplayNcSet(t *testing.T) {
 									continue
 								}
 								vrCheck(fns[0], ds, d.trace, err, src, fail)
+								// what is rendered is the change (new or updated values and the deletes), with the options of the target
+								if len(src.xmlArgs) != 1 || src.xmlArgs[0] != [4]bool{true, includeNS, opNS, useRemove} {
+									fail("the_document_holds_the_change_only", fmt.Sprintf("ToXML calls %v, options of the target include-ns=%v operation-with-namespace=%v use-operation-remove=%v", src.xmlArgs, includeNS, opNS, useRemove))
+								}
 								// only a dead connection (EOF) excuses the discard
 								if ds == "candidate" && err != nil && len(d.trace) > 0 && d.trace[len(d.trace)-1] == "DriverClose" {
 									failing := fe
